@@ -18,6 +18,87 @@ def check(ctx, rep):
     # range level
     set_table(ctx, rep, prog, "intersect", "E-SET-intersect", 223,
               "Range::intersect denotes (union A) & (union B), None iff empty")
+    prerelease_clause(ctx, rep, prog, env)
+
+
+_PS = {}
+
+
+def _pre_worker(chunk):
+    from .. import minver
+    from ..interp import Cell, Inconclusive, Interp, Panic, Ptr, is_some
+    prog, env, probes = _PS["prog"], _PS["env"], _PS["probes"]
+    out = []
+    for A, B in chunk:
+        ra, rb = minver.build_range(prog, env, A), minver.build_range(prog, env, B)
+        it = Interp(prog, minver.MinPolicy(), overrides={})
+        text = "(%s) & (%s)" % (" || ".join(minver.alt_str(a) for a in A), " || ".join(minver.alt_str(b) for b in B))
+        try:
+            r = it.call_body("range::Range::intersect", [Ptr(Cell(ra)), Ptr(Cell(rb))])
+        except Inconclusive as e:
+            out.append(("inconclusive", (e.reason, e.where), text))
+            continue
+        except Panic as p:
+            out.append(("bad", "panics: %s" % p, text))
+            continue
+        both = [v for v in probes if minver.sat_range(A, v) and minver.sat_range(B, v)]
+        problem = None
+        if not is_some(r):
+            if both:
+                problem = "is None although %s satisfies both operands" % minver.vstr(both[0])
+        else:
+            for v in both:
+                it2 = Interp(prog, minver.MinPolicy(), overrides={})
+                try:
+                    s_ = it2.call_body("range::Range::satisfies", [Ptr(Cell(r.fields[0])), Ptr(Cell(minver.mk_version(prog, "v", v)))])
+                except (Inconclusive, Panic):
+                    continue
+                if s_ is not True:
+                    problem = "does not admit %s%s, which satisfies both operands" % (minver.vstr(v), " (a prerelease)" if v[3] else "")
+                    break
+        out.append(("ok", None, text) if problem is None else ("bad", problem, text))
+    return out
+
+
+def prerelease_clause(ctx, rep, prog, env):
+    """`a version satisfying both operands also satisfies the result` — the clause of C07 that involves the prerelease
+    gate, which neither the cut tables nor the Boolean-algebra lifting see: real ranges (1-2 alternatives with bounds
+    from a small universe of release / prerelease versions), real `intersect` and `satisfies`, and the checker's model
+    of satisfaction for the operands. Bounded universe."""
+    import multiprocessing as mp
+    import os
+    from .. import minver
+    rule = "T-INT-SATISFIES"
+    alts = minver.alternatives(minver.bound_universe(True))
+    tagged = [a for a in alts if (a[0][0] != "U" and a[0][1][3]) or (a[1][0] != "U" and a[1][1][3])]
+    two = [[a, b] for a in alts[::5] for b in tagged[::3] if a != b]
+    ones = [[a] for a in alts[::2]]
+    cases = [(A, B) for A in two[::(1 if ctx.thorough else 4)] for B in ones[::(1 if ctx.thorough else 3)]]
+    cases += [(B, A) for A, B in cases[::5]]
+    cases += [(A, A) for A in two[::(1 if ctx.thorough else 2)]]          # idempotence, with overlapping alternatives
+    rep.rule(rule, 500, "every probe version satisfying both operands satisfies Range::intersect's result (real ranges over a "
+                        "small universe, prerelease bounds included)")
+    _PS.update(prog=prog, env=env, probes=minver.probe_universe())
+    procs = min(16, os.cpu_count() or 1)
+    n = max(1, len(cases) // (procs * 8))
+    chunks = [cases[i:i + n] for i in range(0, len(cases), n)]
+    with mp.get_context("fork").Pool(procs) as pool:
+        res = pool.map(_pre_worker, chunks)
+    bad = inc = 0
+    for part in res:
+        for st, detail, text in part:
+            if st == "ok":
+                rep.ok(rule)
+            elif st == "inconclusive":
+                inc += 1
+                if inc <= 3:
+                    rep.inconc("%s: %s" % (rule, detail[0]), detail[1])
+            else:
+                bad += 1
+                if bad <= 3:
+                    rep.fail(rule, "range::Range::intersect|%s|%s" % (rule, detail.split(" ")[0] + " " + detail.split(" ")[1]),
+                             "%s %s" % (text, detail), example=text)
+    rep.analysed_item("Range::intersect on %d pairs of concrete ranges, results probed with %d versions" % (len(cases), len(_PS["probes"])))
 
 
 def t_ord(rep, prog, env):
